@@ -1,6 +1,6 @@
 SPECIFICATION Spec
 CONSTANTS
-  DevClientEscapes = FALSE
+  DevUnescaped = FALSE
 INVARIANT RoundTrip
 INVARIANT ContentNeverMangled
 INVARIANT RefusesOnlyOddSchemes
